@@ -16,7 +16,13 @@ RULE = ("records = (write/read history, storage configuration); histories are dr
         "non-dividing, longer than the extent, all-ones; cache sizes 1..chunks+1 set initially and changed mid-history; "
         "whole-chunk writes/reads interleaved), chunked+{RLE,skphuff,deflate}, chunked+n-bit, compressed "
         "{RLE,skphuff,deflate}, n-bit, external file, unlimited+linked blocks with SDsetblocksize; GR images likewise "
-        "(chunked, chunked+compressed, compressed, external). Thorough tier: every chunk shape of every extent up to "
+        "(chunked, chunked+compressed, compressed, external). Parameter sweep in every tier: n-bit sign_ext x fill_one x "
+        "(start_bit, bit_len) (all 36 fields of the 8-bit types, 8 boundary fields of the 16/32-bit types) contiguous and "
+        "chunked with representable values compared EXACTLY (no projection of the library's output; the contiguous n-bit "
+        "dataset with the same parameters is the chunked one's baseline), deflate levels 0..9 and skphuff skip sizes "
+        "1,2,3,4,5,8 compressed and chunked+compressed for SD and GR; GR creation interlace x requested read interlace "
+        "(3 x 4 incl. 'never requested') for contiguous, chunked and chunked+compressed multi-component images with "
+        "GRwritechunk/GRreadchunk interleaved with GRwriteimage/GRreadimage of the same regions. Thorough tier: every chunk shape of every extent up to "
         "4x4x3 with cache sizes 1..chunks+1. Each record's output is compared with the array specification. "
         "Function level: static chunk arithmetic of hchunks.c and mcache_get/put/sync vs the Coq models on generated "
         "and exhaustive small cases. A record is non-trivial when it transfers data under a non-baseline layout; "
@@ -34,9 +40,12 @@ TRUSTED = ["Coq 8.16.1 kernel",
            "(tied by the function-level correspondence); int32 arithmetic assumed not to wrap (element and chunk byte "
            "sizes < 2^31, stated as hypotheses)"]
 ASSUMPTIONS = ["domain: fixed-size datasets (SDsetchunk rejects unlimited); n-bit compared on projected values with a "
-               "representable fill value; non-chunked compressed datasets accept only appends and whole rewrites "
+               "representable fill value (records whose written values are all representable are compared exactly, the others "
+               "only after projecting the library's values, which cannot see a wrong fill/sign flag); non-chunked compressed datasets accept only appends and whole rewrites "
                "(coders return FAIL otherwise: a reported refusal ends the comparison of that record, silent corruption "
-               "does not); GR histories use stride 1 (strided GR writes belong to C09)",
+               "does not); GR histories use stride 1 (strided GR writes belong to C09); GR write buffers are laid out in the "
+               "interlace GRgetiminfo reports (creation interlace in the creating session, pixel after a reopen), read "
+               "buffers in the interlace requested with GRreqimageil (pixel if never requested)",
                "GR chunk geometry follows GRsetchunk: the chunk layer views the pixel stream as an [xdim][ydim] array"]
 
 NTS = {20: (8, True), 21: (8, False), 22: (16, True), 23: (16, False), 24: (32, True), 25: (32, False), 5: (32, None),
@@ -367,6 +376,131 @@ def gr_records(g, tier, nbase):
     return recs
 
 
+def whole_history(g, dims, nt, nwrites=2):
+    ops = []
+    for _ in range(nwrites):
+        ops.append(("w",) + tuple(g.full(dims)) + ([g.val(nt) for _ in range(prod(dims))],))
+        s, t, e = g.slab(dims)
+        ops.append(("r", s, t, e))
+        ops.append(("reopen",))          # a rewrite goes through a fresh access (see known findings)
+    ops.append(("r",) + tuple(g.full(dims)))
+    return ops
+
+
+def coder_param_records(g, tier):
+    """every coder parameter combination under every layout that accepts it: n-bit sign_ext x fill_one x
+    (start_bit, bit_len) contiguous and chunked, lossless (representable values: compared exactly) -- the contiguous
+    n-bit dataset with the same parameters is the baseline of the chunked one; deflate levels and skipping-Huffman
+    skip sizes, compressed and chunked+compressed, SD and GR"""
+    r = g.r
+    recs = []
+    for nt in (20, 21, 22, 23, 24, 25):
+        w = NTS[nt][0]
+        if w == 8:
+            fields = [(sb, bl) for sb in range(8) for bl in range(1, sb + 2)]
+        else:
+            fields = [(w - 1, w), (w - 1, 1), (w - 1, w // 2), (w // 2, w // 2 + 1), (w // 2, 3), (0, 1), (w - 2, 5), (w - 3, w - 2)]
+        for sb, bl in fields:
+            for se in (0, 1):
+                for fo in (0, 1):
+                    dims = [r.randrange(1, 5), r.randrange(2, 6)] if r.random() < 0.7 else [r.randrange(2, 9)]
+                    lo, hi = vrange(nt)
+                    fill = r.choice([lo, hi, 0, r.randrange(lo, hi + 1)])
+                    par = {"p1": sb, "p2": bl, "p3": se, "p4": fo}
+                    wops = whole_history(g, dims, nt)
+                    recs.append(make_exact(Rec(0, dims, nt, 1, fill, dict(par, kind=4), wops, "sd-nbit-sweep")))
+                    cl = g.chunk_shape(dims)
+                    cfg = dict(par, kind=7, cl=cl, cache=r.choice([0, 1, 2]))
+                    recs.append(make_exact(Rec(0, dims, nt, 1, fill, cfg, g.chunk_variant(dims, cl, nt, wops), "sd-chunk-nbit-sweep")))
+                    ops = g.base_ops(dims, nt, r.randrange(2, 6))
+                    recs.append(make_exact(Rec(0, dims, nt, 1, fill, cfg, g.chunk_variant(dims, cl, nt, ops), "sd-chunk-nbit-sweep")))
+    params = [(DEFLATE, lv) for lv in range(0, 10)] + [(SKPHUFF, k) for k in (1, 2, 3, 4, 5, 8)] + [(RLE, 0)]
+    for coder, p in params:
+        for api in (0, 1):
+            if api == 0:
+                nt = r.choice(list(NTS))
+                dims = [r.randrange(1, 6), r.randrange(1, 7)]
+                cdims = dims
+            else:
+                nt = r.choice([21, 20, 23, 24, 5])
+                ncomp = r.choice([1, 2, 3])
+                dims = [r.randrange(1, 6), r.randrange(1, 6), ncomp]
+                cdims = [dims[1], dims[0], ncomp]
+            lo, hi = vrange(nt)
+            fill = r.randrange(lo, hi + 1)
+            if api == 0:
+                wops = whole_history(g, dims, nt)
+                ops = g.base_ops(dims, nt, r.randrange(2, 7))
+            else:
+                wops = [o if o[0] != "r" else ("r",) + tuple(g.full(dims)) for o in whole_history(g, dims, nt)]
+                ops = list(wops)
+            recs.append(Rec(api, dims, nt, 1, fill, {"kind": 2, "coder": coder, "p1": p}, wops, "param-comp"))
+            cl = g.chunk_shape(cdims[:2]) + cdims[2:] if api == 1 else g.chunk_shape(dims)
+            recs.append(Rec(api, dims, nt, 1, fill, {"kind": 3, "coder": coder, "p1": p, "cl": cl, "cache": r.choice([0, 1, 2])},
+                            g.chunk_variant(cdims, cl, nt, ops), "param-chunk-comp"))
+            recs.append(Rec(api, dims, nt, 1, fill, {"kind": 0}, ops, "sd-base" if api == 0 else "gr-base"))
+    return recs
+
+
+def interlace_records(g, tier):
+    """GR: every (creation interlace, requested read interlace) pair, contiguous / chunked / chunked+compressed,
+    multi-component; whole-chunk writes and reads interleaved with GRwriteimage/GRreadimage of the same regions"""
+    r = g.r
+    recs = []
+    for cil in (0, 1, 2):
+        for ril in (-1, 0, 1, 2):
+            for rep in range(2 if tier == "quick" else 6):
+                ncomp = r.choice([2, 3, 3, 4])
+                ydim, xdim = r.randrange(1, 7), r.randrange(1, 7)
+                if rep == 0:
+                    ydim = xdim = r.randrange(2, 6)
+                dims = [ydim, xdim, ncomp]
+                nt = r.choice([21, 20, 23, 24, 5])
+                lo, hi = vrange(nt)
+                hasfill = r.choice([0, 1])
+                fill = r.randrange(lo, hi + 1) if hasfill else 0
+                ops = []
+                for n_op in range(r.randrange(2, 7)):
+                    c = r.random() if n_op else 0.0
+                    s, t, e = g.slab([ydim, xdim], contiguous=True)
+                    s, t, e = s + [0], t + [1], e + [ncomp]
+                    if c < 0.5:
+                        ops.append(("w", s, t, e, [g.val(nt) for _ in range(prod(e))]))
+                    elif c < 0.9:
+                        ops.append(("r", s, t, e))
+                    else:
+                        ops.append(("reopen",))
+                ops += [("reopen",), ("r",) + tuple(g.full(dims))]
+                il = {"p2": cil, "p3": ril}
+                recs.append(Rec(1, dims, nt, hasfill, fill, dict(il, kind=0), ops, "gr-interlace"))
+                cdims = [xdim, ydim, ncomp]
+                cl = g.chunk_shape(cdims[:2]) + [ncomp]
+                if rep == 0:
+                    c0 = r.randrange(1, xdim + 1)
+                    cl = [c0, c0, ncomp]
+                recs.append(Rec(1, dims, nt, hasfill, fill, dict(il, kind=1, cl=cl, cache=r.choice([0, 1, 2])),
+                                g.chunk_variant(cdims, cl, nt, ops) + region_reads(cdims, cl), "gr-interlace-chunk"))
+                coder, p = r.choice([(RLE, 0), (SKPHUFF, NTS[nt][0] // 8), (DEFLATE, r.randrange(1, 10))])
+                recs.append(Rec(1, dims, nt, hasfill, fill, dict(il, kind=3, cl=cl, cache=r.choice([0, 1]), coder=coder, p1=p),
+                                g.chunk_variant(cdims, cl, nt, ops), "gr-interlace-chunk-comp"))
+    return recs
+
+
+def region_reads(cdims, cl):
+    """for square images/chunks the chunk (o0,o1) is the image region x in [o0*c, ..), y in [o1*c, ..): read each chunk
+    whole and as that region with GRreadimage (both are compared with the specification, hence with each other)"""
+    xdim, ydim, ncomp = cdims
+    out = []
+    if xdim != ydim or cl[0] != cl[1]:
+        return out
+    c = cl[0]
+    n = (xdim + c - 1) // c
+    for o0 in range(min(n, 3)):
+        for o1 in range(min(n, 3)):
+            out.append(("rc", [o0, o1, 0]))
+    return out
+
+
 def exhaustive_records(g, maxd):
     """every chunk shape of every extent up to maxd, cache sizes 1..chunks+1, one fixed history shape per extent"""
     recs = []
@@ -461,7 +595,8 @@ def compare_record(rec, rl, sl):
     if terminated:
         body = body[:-1]
     sl = [x for x in sl if x != "E"]
-    nb = rec.cfg["kind"] in (4, 7)
+    nb = rec.cfg["kind"] in (4, 7) and not nbit_exact(rec)
+    st["nbit_exact"] = 1 if (rec.cfg["kind"] in (4, 7) and not nb) else 0
     for i, s in enumerate(sl):
         if nb and i < len(body):
             # n-bit: "on the projected values" -- the library's values are projected before comparing (a cached chunk
@@ -485,6 +620,36 @@ def compare_record(rec, rl, sl):
             st["values"] += len(r.split()) - 1
     st["special"] = info[0][2:] if info else ""
     return "ok", "", st
+
+
+def nbit_exact(rec):
+    """every value handed to the library (fill value, slab and whole-chunk writes) is representable in the bit field
+    with the record's flags: then nothing is lossy and the library's values are compared as they are; otherwise only
+    'on the projected values' (which cannot see a wrong fill/sign-extension flag)"""
+    c = rec.cfg
+    pr = lambda v: nbit_proj(rec.nt, c["p1"], c["p2"], c["p3"], c["p4"], v)
+    if pr(rec.fill) != rec.fill:
+        return False
+    for o in rec.ops:
+        vals = o[4] if o[0] == "w" else (o[2] if o[0] == "wc" else [])
+        if any(pr(v) != v for v in vals):
+            return False
+    return True
+
+
+def make_exact(rec):
+    """project every written value, so that the n-bit record is lossless"""
+    c = rec.cfg
+    pr = lambda v: nbit_proj(rec.nt, c["p1"], c["p2"], c["p3"], c["p4"], v)
+    ops = []
+    for o in rec.ops:
+        if o[0] == "w":
+            ops.append(("w", o[1], o[2], o[3], [pr(v) for v in o[4]]))
+        elif o[0] == "wc":
+            ops.append(("wc", o[1], [pr(v) for v in o[2]]))
+        else:
+            ops.append(o)
+    return Rec(rec.api, rec.dims, rec.nt, 1, pr(rec.fill), rec.cfg, ops, rec.tag)
 
 
 def project_line(rec, line):
@@ -603,6 +768,7 @@ def check_records(ctx, recs, tag, stats):
             t["ops"] += st["ops"]
             t["values_compared"] += st["values"]
             t["refused"] += st["refused"]
+            t["nbit_exact"] = t.get("nbit_exact", 0) + st.get("nbit_exact", 0)
             if v == "ok":
                 t["ok"] += 1
                 sp = st.get("special", "")
@@ -848,6 +1014,8 @@ def run(ctx):
     recs = load_corpus()
     recs += sd_records(g, ctx.tier, 300 if quick else 2000)
     recs += gr_records(g, ctx.tier, 150 if quick else 800)
+    recs += coder_param_records(g, ctx.tier)
+    recs += interlace_records(g, ctx.tier)
     recs += exhaustive_records(g, (3, 3, 2) if quick else (4, 4, 3))
     check_records(ctx, recs, "main", stats)
     ctx.corr("layouts~array-spec", **{k: v for k, v in stats.items()})
